@@ -445,14 +445,16 @@ def _barrier_sync_harness(prop, ds, rot):
 
 
 def fam_async(prop, tier):
-    """join_async!/try_join_async! with harness-controlled gates: all readiness patterns (bounded pending counts)"""
+    """join_async!/try_join_async! with harness-controlled gates: all readiness patterns (pending count <= 1 per gate)"""
     out = []
     if tier == "quick":
-        profs = [(1,), (2,), (1, 1), (2, 2), (1, 2), (2, 1), (2, 1, 2), (1, 2, 2), (2, 2, 1), (1, 1, 1)]
+        profs = [(1,), (2,), (1, 1), (2, 1), (1, 2), (2, 2), (2, 1, 2), (1, 2, 2)]
     else:
-        profs = profiles([1, 2, 3], 2) + [(3,), (3, 2), (2, 3), (3, 1, 2), (2, 3, 1), (1, 2, 2, 1)]
+        profs = [(1,), (2,), (1, 1), (2, 1), (1, 2), (2, 2), (2, 1, 2), (1, 2, 2), (3,), (3, 2), (2, 3), (2, 2, 1), (2, 2, 2), (1, 1, 1), (1, 2, 2, 1)]
     for mac in ("join_async", "try_join_async"):
         for ds in profs:
+            if mac == "try_join_async" and tier == "quick" and len(ds) > 2:
+                continue
             out.append(_async_harness(prop, mac, ds))
     return out
 
@@ -461,17 +463,15 @@ def _async_harness(prop, mac, ds):
     n = len(ds)
     is_try = mac.startswith("try")
     b = ""
-    PMAX = 2 if n <= 2 else 1
     for i in range(n):
-        b += "    let a%d: u8 = kani::any();\n" % i
         for s in range(ds[i]):
-            b += "    let p_%d_%d: u8 = kani::any(); kani::assume(p_%d_%d <= %d);\n" % (i, s, i, s, PMAX)
+            b += "    let p_%d_%d: u8 = kani::any(); kani::assume(p_%d_%d <= 1);\n" % (i, s, i, s)
     brs = []
     for i in range(n):
-        t = "gate(p_%d_0, code(K_POLL, %d, 0, 0), Ok::<u8, u8>(a%d))" % (i, i, i)
+        v0 = "Ok::<u8, u8>(%d)" % K(i, 0) if is_try else "%du8" % K(i, 0)
+        t = "gate(p_%d_0, code(K_POLL, %d, 0, 0), %s)" % (i, i, v0)
         for s in range(1, ds[i]):
-            t += " ~=> |x: u8| { ev(code(K_CALL, %d, %d, 0)); gate(p_%d_%d, code(K_POLL, %d, %d, 1), Ok::<u8, u8>(x.wrapping_add(%d))) }" % (
-                i, s, i, s, i, s, K(i, s))
+            t += " ~-> |f| %s(f, p_%d_%d, code(K_CALL, %d, %d, 0), %d)" % ("then_gate_r" if is_try else "then_gate", i, s, i, s, K(i, s))
         brs.append(t)
     prog = "%s! { %s }" % (mac, ", ".join(brs))
     b += "    let fut = %s;\n" % prog
@@ -485,19 +485,20 @@ def _async_harness(prop, mac, ds):
             m = "core::cmp::max(%s, p_%d_%d)" % (m, i, s)
         need += " + " + m
     b += "    let need: u8 = %s;\n" % need
-    b += "    let (out, polls) = run(fut, %d);\n" % (2 + PMAX * max(ds))
+    maxp = 1 + max(ds)
+    b += "    let (out, polls) = run(fut, %d);\n" % maxp
     vals = []
     for i in range(n):
-        e = "a%d" % i
+        v = K(i, 0)
         for s in range(1, ds[i]):
-            e = "%s.wrapping_add(%d)" % (e, K(i, s))
-        vals.append(e)
+            v = (v + K(i, s)) % 256
+        vals.append(str(v))
     if is_try:
         rty = "Result<%s, u8>" % tupty("u8", n)
         exp = "Ok(%s)" % tup(vals)
     else:
-        rty = tupty("Result<u8, u8>", n)
-        exp = tup("Ok(%s)" % v for v in vals)
+        rty = tupty("u8", n)
+        exp = tup(vals)
     if prop == "C09":
         b += "    assert!(out.is_some(), \"C09: future did not complete although every branch could\");\n"
         b += "    assert!(polls <= need, \"C09: a pending branch blocked a ready sibling (more polls than concurrent progress needs)\");\n"
@@ -506,15 +507,15 @@ def _async_harness(prop, mac, ds):
     else:
         b += "    assert!(out.is_some());\n    let r: %s = out.unwrap();\n" % rty
         b += "    assert!(r == %s, \"C03: a branch did not continue from its own previous step value\");\n" % exp
-        nmaxev = sum(ds) * (PMAX + 2)
+        nmaxev = 3 * sum(ds)
         b += "    assert!(tlen() <= %d);\n" % nmaxev
         for k in range(1, nmaxev):
             b += "    assert!(%d >= tlen() || step_of(tr(%d)) <= step_of(tr(%d)), \"C03: an event of step k+1 precedes an event of step k\");\n" % (k, k - 1, k)
-    b += "    kani_cover!(polls >= 2);\n"
+    b += "    kani_cover!(polls == %d);\n" % maxp
     if n >= 2:
         b += "    kani_cover!(p_0_0 == 1 && p_1_0 == 0);\n    kani_cover!(p_0_0 == 0 && p_1_0 == 1);\n"
     name = "%s_async_%s_%s" % (prop.lower(), mac, pname(ds))
-    return Harness(name, harness_fn(name, b, unwind=(4 + PMAX * max(ds))), prog, note="profile %s, pending counts <= %d per gate" % (ds, PMAX))
+    return Harness(name, harness_fn(name, b, unwind=(2 + maxp)), prog, note="profile %s, pending count <= 1 per gate (one gate per branch and step)" % (ds,))
 
 
 # ======================================================================================
